@@ -26,3 +26,9 @@ pub open spec fn font_matches(f: TheDrawFont, b: Seq<u8>, of: int) -> bool {
     &&& f.char_table@.len() == 94
     &&& table_ok(f.char_table@, b, of, 94)
 }
+// where font n of a bundle starts: the first font follows the 20-byte file header, each record is 213 bytes plus its glyph block
+pub open spec fn tdf_start(b: Seq<u8>, n: nat) -> int
+    decreases n
+{
+    if n == 0 { 20 } else { tdf_start(b, (n - 1) as nat) + 213 + u16le(b, tdf_start(b, (n - 1) as nat) + 23) }
+}
